@@ -202,6 +202,11 @@ func (t *Transport) getConn(addr string) (pc *persistConn, err error) {
 	}
 	t.connsMu.Lock()
 	defer t.connsMu.Unlock()
+	if atomic.LoadUint32(&t.closed) > 0 {
+		// A call that was already on its way when Close ran must not dial a
+		// connection or start the housekeeping goroutine behind Close's back.
+		return nil, ErrShutdown
+	}
 	defer func() {
 		if err == nil && pc != nil {
 			atomic.AddInt32(&pc.uses, 1)
